@@ -1,6 +1,124 @@
-import DtnVerif.Model.TcpclEp
+/-
+  C01 — TCPCL delivers every queued bundle exactly once, intact and in order.
+  Property theorems only. `deliver` (Model/TcpclSpec) is the ideal receiver: it is what the
+  property means by "the bundle the segments carry".
+-/
+import DtnVerif.Lemmas.TcpclSys
 namespace DtnVerif
 namespace Tcpcl
-theorem C01_placeholder : True := trivial
+
+/-- constants of the source the model relies on -/
+theorem C01_facts :
+    Facts.const_tcpcl_CHUNK_SIZE = chunkSize
+    ∧ Facts.const_tcpcfg_segment_size_tx_initial = 104857
+    ∧ Facts.const_tcpcfg_segment_size_mru = 10485760
+    ∧ (Facts.binds.filter (fun b => b.1 == "TransferExtendHeader" && b.2.1 == "TransferTotalLength")).map
+        (fun b => b.2.2.2) = [1] := by
+  decide
+
+/-- **G-rx.** Against an arbitrary peer and schedule: the list of completely received transfers of an
+    endpoint is exactly what the ideal receiver reconstructs from the messages it processed — nothing
+    truncated, duplicated, merged or reordered by anything else that happens at the endpoint. -/
+theorem C01_rx_spec (cfg : Cfg) (evs : List Ev) :
+    (runEp { cfg := cfg } evs).rxLog = deliver (runEp { cfg := cfg } evs).processed :=
+  (rxInv_run evs _ (rxInv_init cfg)).1
+
+/-- **G-pump.** The octets the socket accepted are always a prefix of the encoding of the emitted
+    message sequence, for every pattern of partial writes. -/
+theorem C01_wire (cfg : Cfg) (evs : List Ev) :
+    (runEp { cfg := cfg } evs).accepted <+: encodeAll (runEp { cfg := cfg } evs).emitted := by
+  have h : encodeAll _ = _ := pumpInv_run evs _ (pumpInv_init cfg)
+  rw [h, List.append_assoc]; exact List.prefix_append _ _
+
+/-- **G-tx.** Against any schedule and any peer whose own sequence is legal, refuses nothing and
+    announces a positive segment MRU: an ideal receiver of what the endpoint emitted reconstructs a
+    prefix of the bundles the user queued, byte-identical and in order. -/
+theorem C01_tx_spec (cfg : Cfg) (evs : List Ev) (h1 : 0 < cfg.segInit) (h2 : cfg.privExt = false)
+    (hsend : ∀ d, Ev.send d ∈ evs → d.length < 2 ^ 64)
+    (hleg : Legal (runEp (started cfg) evs).processed)
+    (hok : ∀ m ∈ (runEp (started cfg) evs).processed, okMsg m) :
+    deliver (runEp (started cfg) evs).emitted <+:
+      (runEp (started cfg) evs).sendLog.map (fun it => (it.tid, it.data)) := by
+  obtain ⟨P, hP⟩ := txInv_run evs _ {} (txInv_started cfg h1 h2) (timerInv_started cfg) hsend hleg hok
+  have hD := hP.D
+  unfold deliver
+  simp only [Ep.txView] at hD
+  rw [hD]
+  simp only [doneD]
+  rw [List.map_take]
+  exact List.take_prefix _ _
+
+/-- **C01, safety, two endpoints.** For every schedule of the two-endpoint system — any interleaving
+    of user sends, idle sources, partial socket writes, arbitrary read chunking and delays, timers,
+    terminations and closes — the data of the transfers B has completely received is a prefix of the
+    data A's user queued (and symmetrically): no truncation, duplication, merge or reordering. -/
+theorem C01_prefix (cfgA cfgB : Cfg) (sch : List SysEv)
+    (a1 : 0 < cfgA.segInit) (a2 : cfgA.privExt = false) (a3 : 0 < cfgA.segMru)
+    (b1 : 0 < cfgB.segInit) (b2 : cfgB.privExt = false) (b3 : 0 < cfgB.segMru)
+    (hwf : ∀ pre, pre <+: sch → SysWF (runSys (initSys cfgA cfgB) pre))
+    (hs : ∀ ev ∈ sch, ev.sendOK) :
+    let s := runSys (initSys cfgA cfgB) sch
+    s.b.rxLog.map (·.2) <+: s.a.sendLog.map (·.data) ∧ s.a.rxLog.map (·.2) <+: s.b.sendLog.map (·.data) := by
+  intro s
+  have hi : SysInv s := sysInv_run sch _ (sysInv_init cfgA cfgB a1 a2 a3 b1 b2 b3) hwf hs
+  have hw : SysWF s := hwf sch (List.prefix_refl _)
+  obtain ⟨tB, tA⟩ := transport s hi hw
+  have one : ∀ (w r : Ep), EpInv w → EpInv r → r.processed <+: w.emitted →
+      r.rxLog.map (·.2) <+: w.sendLog.map (·.data) := by
+    intro w r hw' hr ht
+    have h1 : r.rxLog = deliver r.processed := hr.rx.1
+    obtain ⟨P, hP⟩ := hw'.tx
+    have hD := hP.D
+    have h2 : deliver w.emitted = (w.sendLog.take (w.nStarted - (if w.txTmp.isSome then 1 else 0))).map
+        (fun it => (it.tid, it.data)) := by
+      unfold deliver
+      simp only [Ep.txView] at hD
+      rw [hD]; rfl
+    have h3 := deliver_prefix ht
+    rw [h2, ← h1] at h3
+    obtain ⟨t, ht'⟩ := h3
+    have := congrArg (List.map (·.2)) ht'
+    simp only [List.map_append, List.map_map, List.map_take] at this
+    refine List.IsPrefix.trans ⟨_, this⟩ ?_
+    have hcomp : List.map ((fun x => x.2) ∘ fun it : TxItem => (it.tid, it.data)) w.sendLog
+        = List.map (·.data) w.sendLog := by
+      apply List.map_congr_left; intro a _; rfl
+    rw [hcomp]
+    exact List.take_prefix _ _
+  exact ⟨one s.a s.b hi.ia hi.ib tB, one s.b s.a hi.ib hi.ia tA⟩
+
+/-- **Transport**, as a property of its own: at every reachable state of the two-endpoint system what
+    one side has processed is a prefix of what the other side has emitted. -/
+theorem C01_transport (cfgA cfgB : Cfg) (sch : List SysEv)
+    (a1 : 0 < cfgA.segInit) (a2 : cfgA.privExt = false) (a3 : 0 < cfgA.segMru)
+    (b1 : 0 < cfgB.segInit) (b2 : cfgB.privExt = false) (b3 : 0 < cfgB.segMru)
+    (hwf : ∀ pre, pre <+: sch → SysWF (runSys (initSys cfgA cfgB) pre))
+    (hs : ∀ ev ∈ sch, ev.sendOK) :
+    (runSys (initSys cfgA cfgB) sch).b.processed <+: (runSys (initSys cfgA cfgB) sch).a.emitted
+    ∧ (runSys (initSys cfgA cfgB) sch).a.processed <+: (runSys (initSys cfgA cfgB) sch).b.emitted :=
+  transport _ (sysInv_run sch _ (sysInv_init cfgA cfgB a1 a2 a3 b1 b2 b3) hwf hs) (hwf sch (List.prefix_refl _))
+
+/-! ### non-vacuity: a concrete two-endpoint run meeting every hypothesis and delivering a bundle -/
+
+namespace Example
+def cfgA : Cfg := { passive := false, segInit := 2, segMru := 100 }
+def cfgB : Cfg := { passive := true, segInit := 5, segMru := 100 }
+/-- contact and session negotiation cut across reads and partial writes, then a 3-octet bundle in
+    two segments (segment size 2), acknowledged -/
+def sched : List SysEv := [
+  .atA (.pump 10240), .deliverB 4, .deliverB 10, .atB (.pump 3), .atB (.pump 10240), .deliverA 100,
+  .atA (.pump 10240), .deliverB 7, .deliverB 100, .atB (.pump 10240), .deliverA 100,
+  .atA (.send [1, 2, 3]), .atA .procQueue, .atA (.pump 30), .atA .procQueue, .atA (.pump 10240),
+  .deliverB 50, .deliverB 100, .atB (.pump 10240), .deliverA 100]
+
+instance (s : Sys) : Decidable (SysWF s) := by unfold SysWF; infer_instance
+
+example : (List.range (sched.length + 1)).all
+    (fun k => decide (SysWF (runSys (initSys cfgA cfgB) (sched.take k)))) = true := by decide +kernel
+example : (runSys (initSys cfgA cfgB) sched).b.rxLog = [(1, [1, 2, 3])]
+    ∧ (runSys (initSys cfgA cfgB) sched).a.successLog = [1]
+    ∧ (runSys (initSys cfgA cfgB) sched).a.sendLog.map (·.data) = [[1, 2, 3]] := by decide +kernel
+end Example
+
 end Tcpcl
 end DtnVerif
